@@ -7,9 +7,9 @@ CONSTANTS
   MaxFaults = 3
   ConnectGuarded = TRUE
   MaxStreams = 2
-  Delays = {}
+  Delays = {59, 1}
   AllowAbandon = TRUE
-  MaxCalls = 2
+  MaxCalls = 1
 SPECIFICATION Spec
 INVARIANT CommandsOnlyOnVetted
 INVARIANT NoUseAfterTaint
